@@ -4196,7 +4196,14 @@ def fix_if_return(source: str) -> str:
     """
     replace = "return not ({{condition}})"
 
-    yield from processing.find_replace(source, find, replace, condition=ast.BoolOp, transaction=1)
+    # (everything that binds less tightly than not)
+    yield from processing.find_replace(
+        source,
+        find,
+        replace,
+        condition=(ast.BoolOp, ast.IfExp, ast.Lambda, ast.NamedExpr),
+        transaction=1,
+    )
 
     find = """
     if {{condition}}:
@@ -4238,7 +4245,14 @@ def fix_if_assign(source: str) -> str:
     """
     replace = "{{variable}} = not ({{condition}})"
 
-    yield from processing.find_replace(source, find, replace, condition=ast.BoolOp, transaction=1)
+    # (everything that binds less tightly than not)
+    yield from processing.find_replace(
+        source,
+        find,
+        replace,
+        condition=(ast.BoolOp, ast.IfExp, ast.Lambda, ast.NamedExpr),
+        transaction=1,
+    )
 
     find = """
     if {{condition}}:
